@@ -140,4 +140,106 @@ theorem commentLines_no_break (t : List Char) : ∀ l ∈ commentLines t, ∀ c 
   have h2 := linesGo_no_nl [] t (by simp) ln hln c h1.1
   simp [isBreak, h1.2.1, h1.2.2, h2]
 
+/-! ### keywords, tag starts -/
+
+theorem okFrom_append_us (alnum : Char → Bool) (prev : Option Char) (l : List Char)
+    (h : okFrom alnum prev l = true) : okFrom alnum prev (l ++ ['_']) = true := by
+  induction l generalizing prev with
+  | nil => simp [okFrom]
+  | cons c rest ih =>
+    simp only [List.cons_append, okFrom, Bool.and_eq_true] at h ⊢
+    exact ⟨h.1, ih _ h.2⟩
+
+theorem dropWhile_lead_of_ws (l : List Char) :
+    (l.dropWhile isDocWs).dropWhile isTagLead = l.dropWhile isTagLead := by
+  induction l with
+  | nil => rfl
+  | cons c rest ih =>
+    by_cases hc : isDocWs c = true
+    · have hl : isTagLead c = true := by simp [isTagLead, hc]
+      simp [List.dropWhile, hc, hl, ih]
+    · simp [List.dropWhile, hc]
+
+/-- the `@` criterion of `escapeTag` -/
+def leadAt (l : List Char) : Bool := (l.dropWhile isTagLead).head? == some '@'
+
+theorem leadAt_ws (l : List Char) : leadAt (l.dropWhile isDocWs) = leadAt l := by
+  simp [leadAt, dropWhile_lead_of_ws]
+
+theorem leadAt_cons_lead (c : Char) (l : List Char) (h : isTagLead c = true) : leadAt (c :: l) = leadAt l := by
+  simp [leadAt, List.dropWhile, h]
+
+/-- no `@` behind leading white space, dashes and slashes: the lexer never reaches a tag start -/
+theorem tagAfter_false (f : Nat) (l : List Char) (h : leadAt l = false) : tagAfter f l = false := by
+  induction f generalizing l with
+  | zero => rfl
+  | succ f ih =>
+    have hm : leadAt (l.dropWhile isDocWs) = false := by rw [leadAt_ws]; exact h
+    have hd : isTagLead '-' = true := by decide
+    have hs : isTagLead '/' = true := by decide
+    unfold tagAfter
+    split
+    · rename_i rest heq
+      rw [heq] at hm
+      have hr : leadAt rest = false := by
+        rw [leadAt_cons_lead _ _ hd, leadAt_cons_lead _ _ hd, leadAt_cons_lead _ _ hd] at hm; exact hm
+      have hr' : leadAt (rest.dropWhile isDocWs) = false := by rw [leadAt_ws]; exact hr
+      split
+      · rename_i tl heq2
+        rw [heq2] at hr'
+        simp [leadAt, List.dropWhile, isTagLead, isDocWs] at hr'
+      · exact ih _ hr'
+    · rename_i rest _ heq
+      rw [heq] at hm
+      rw [leadAt_cons_lead _ _ hd, leadAt_cons_lead _ _ hd] at hm
+      exact ih _ hm
+    · rename_i rest heq
+      rw [heq] at hm
+      rw [leadAt_cons_lead _ _ hs, leadAt_cons_lead _ _ hs, leadAt_cons_lead _ _ hs] at hm
+      exact ih _ hm
+    · rename_i rest _ heq
+      rw [heq] at hm
+      rw [leadAt_cons_lead _ _ hs, leadAt_cons_lead _ _ hs] at hm
+      exact ih _ hm
+    · rfl
+
+/-- a written description line is never (even partly) lexed as a tag by the doc lexer -/
+theorem tagStart_docLine (l : List Char) : tagStart ("--- ".toList ++ escapeTag l) = false := by
+  have hpre : "--- ".toList ++ escapeTag l = '-' :: '-' :: '-' :: ' ' :: escapeTag l := rfl
+  rw [hpre]
+  have hsp : isDocWs ' ' = true := by decide
+  have hlead : leadAt (escapeTag l) = false := by
+    unfold escapeTag
+    split
+    · simp [leadAt, List.dropWhile, isTagLead, isDocWs]
+    · rename_i hne
+      simpa [leadAt] using hne
+  have hm : leadAt ((escapeTag l).dropWhile isDocWs) = false := by rw [leadAt_ws]; exact hlead
+  simp only [tagStart, List.dropWhile, hsp]
+  split
+  · rename_i tl heq
+    rw [heq] at hm
+    simp [leadAt, List.dropWhile, isTagLead, isDocWs] at hm
+  · exact tagAfter_false _ _ hm
+
+theorem sanitized_is_one_name (alnum alpha : Char → Bool) (pre name : List Char) :
+    ∃ c r, sanitized alnum alpha pre name = c :: r ∧ (alpha c = true ∨ c = '_') ∧
+      okFrom alnum (some c) r = true := by
+  unfold sanitized
+  have hok := okFrom_sanitize alnum none (pre ++ name)
+  cases hs : sanitizeGo alnum none (pre ++ name) with
+  | nil => exact ⟨'_', [], rfl, Or.inr rfl, rfl⟩
+  | cons c r =>
+    rw [hs] at hok
+    simp only [okFrom, Bool.and_eq_true] at hok
+    obtain ⟨hc, hr⟩ := hok
+    have hc' : (alnum c || c == '_') = true := by simpa using hc
+    by_cases ha : (alpha c || c == '_') = true
+    · refine ⟨c, r, by simp [ha], ?_, hr⟩
+      simp only [Bool.or_eq_true, beq_iff_eq] at ha
+      exact ha
+    · refine ⟨'_', c :: r, by simp [ha], Or.inr rfl, ?_⟩
+      simp only [okFrom, Bool.and_eq_true]
+      exact ⟨by simp only [Bool.or_eq_true] at hc' ⊢; exact Or.inl hc', hr⟩
+
 end Emit
